@@ -737,3 +737,51 @@ pub fn gen_lzma2_medium(t: &mut Tape) -> Lzma2Built {
         note,
     }
 }
+
+/// Rebuild the match-heavy stream a 'large' scenario describes by a few numbers
+/// (props, dict, total, prefix, rng, marker): (props, payload, expected output,
+/// number of far matches).
+pub fn build_large_stream(sc: &crate::scenario::Scenario) -> (crate::refmodel::codec::Props, Vec<u8>, Vec<u8>, u64) {
+    use crate::refmodel::codec::Props;
+    let pl = sc.l("props");
+    let props = Props { lc: pl[0] as u32, lp: pl[1] as u32, pb: pl[2] as u32 };
+    let dict = sc.i("dict");
+    let total = sc.i("total") as usize;
+    let mut r = crate::prng::Xoshiro::new(sc.i("rng"));
+    let mut enc = RefEnc::new(props, dict);
+    let prefix = (sc.i("prefix") as usize).min(total);
+    for _ in 0..prefix {
+        let _ = enc.encode(Sym::Lit(r.next() as u8));
+    }
+    let mut far = 0u64;
+    while enc.model.out.len() < total {
+        let left = total - enc.model.out.len();
+        let avail = (enc.model.out.len() as u64).min(dict);
+        let roll = r.next() % 512;
+        let len = if left >= 273 && roll % 4 != 0 { 273 } else { (2 + r.next() % 272).min(left as u64) };
+        let s = if left < 2 || roll == 0 {
+            Sym::Lit(r.next() as u8)
+        } else if roll < 6 {
+            // reaches back as far as the dictionary (or everything produced) allows
+            far += 1;
+            Sym::Match { dist: (avail - (r.next() % 3).min(avail - 1)) as u32, len: len as u32 }
+        } else if roll < 12 {
+            far += 1;
+            Sym::Match { dist: (1 + r.next() % avail) as u32, len: len as u32 }
+        } else if roll < 40 {
+            Sym::Rep { idx: (r.next() % 4) as u8, len: len as u32 }
+        } else {
+            Sym::Match { dist: (1 + r.next() % (prefix as u64).min(avail)) as u32, len: len as u32 }
+        };
+        if enc.encode(s).is_err() {
+            let _ = enc.encode(Sym::Lit(r.next() as u8));
+        }
+    }
+    let marker = sc.i("marker") == 1;
+    if marker {
+        enc.encode_end_marker();
+    }
+    let payload = enc.finish_segment();
+    let expect = std::mem::take(&mut enc.model.out);
+    (props, payload, expect, far)
+}
